@@ -1,21 +1,22 @@
 SPECIFICATION Spec
 CONSTANTS
-  Ids = {"A", "B", "C", "D", "E"}
-  InitUp = {"A", "B", "C", "D", "E"}
-  Small = {"s1"}
-  Big = {"b1"}
+  Ids = {"A", "B", "C"}
+  InitUp = {"A", "B", "C"}
+  Small = {"s1", "s2"}
+  Big = {}
   Fanout = 3
   TxLimit = 3
   SendList = "current"
   OnTimeout = "ready"
   OkayRequired = 3
   Budgets = {0}
-  MaxStop = 0
-  Transport = "udp"
+  MaxStop = 1
+  Transport = "tls"
   Redial = "on_failure"
-  MaxReset = 0
+  MaxReset = 1
   MaxJoin = 0
   UOrder <- MCOrder
 VIEW View
-INVARIANTS Delivered DeliveredStrict Sane
+INVARIANTS Delivered Readiness Sane
+PROPERTIES JoinGetsAll FlushPasses
 CHECK_DEADLOCK FALSE
